@@ -142,6 +142,15 @@ def toCsrRowsD (dt : DType) : Container → Rows
 
 def checkFormatD (dt : DType) (c : Container) : Container := .csr c.nCol (toCsrRowsD dt c)
 
+/-- number of stored entries (`nnz`) -/
+def storedCount (rows : Rows) : Nat := (rows.map List.length).foldl (· + ·) 0
+
+/-- `check_format(x, allow_empty)` with its one refusal inside the accepted container types: a matrix that stores
+nothing raises `ValueError('The input matrix is empty.')` unless `allow_empty` (np.matrix, DOK / BSR / DIA, lists …
+are refused with TypeError before any conversion: they are not `Container`s). -/
+def checkFormatE (dt : DType) (allowEmpty : Bool) (c : Container) : Except Unit Container :=
+  if !allowEmpty && storedCount (toCsrRowsD dt c) == 0 then .error () else .ok (checkFormatD dt c)
+
 /-- canonical form in the dtype (`sum_duplicates(); sort_indices(); eliminate_zeros()`), from the denotation -/
 def canonD (dt : DType) (nCol : Nat) (rows : Rows) : Rows :=
   rows.map fun r => (List.range nCol).filterMap fun j =>
